@@ -193,9 +193,37 @@ def structures(chk, repo):
            "structures' sizes", ok, di, "create_map(type, Key.stack, "
            "Value.stack, size)")
     td = repo.func(H + "TheDict.__init__")
-    ok = bool(find("self.key.addr_offset = ht.key_offset", td, mode="stmt")
-              ) and bool(find("self.value.addr_offset = ht.value_offset", td,
-                              mode="stmt"))
+    # abstract execution of the constructor on opaque arguments: how the
+    # two structures end up configured, however the statements are spelt
+    tdc = repo.cls(H + "TheDict")
+    koff, voff = Opaque("ht.key_offset"), Opaque("ht.value_offset")
+    eb = Obj(None, {})
+    made = []
+
+    def mk(tag):
+        def make(*a, **k):
+            o = Obj(None, {"_made_by": tag})
+            made.append(o)
+            return o
+        return ("hook", make)
+    ht = Obj(None, {"Key": mk("Key"), "Value": mk("Value"),
+                    "key_offset": koff, "value_offset": voff})
+    me = Obj(tdc, {})
+    try:
+        Evaluator(repo, td._module, tdc).call_function(
+            td, [me, ht, eb, Opaque("fd")], cls=tdc)
+    except (Unknown, Raised) as e:
+        raise AnalysisError(f"R09.3: cannot evaluate TheDict.__init__: {e}")
+    k, v = me.fields.get("key"), me.fields.get("value")
+    ok = isinstance(k, Obj) and isinstance(v, Obj) and \
+        k.fields.get("_made_by") == "Key" and \
+        v.fields.get("_made_by") == "Value" and \
+        k.fields.get("addr_offset") is koff and \
+        v.fields.get("addr_offset") is voff and \
+        k.fields.get("ebpf") is eb and v.fields.get("ebpf") is eb and \
+        "data" in k.fields and k.fields["data"] is None and \
+        "data" in v.fields and v.fields["data"] is None and \
+        "base_register" not in k.fields and "base_register" not in v.fields
     chk.ob("R09.3", H + "TheDict.__init__", "on-stack key/value use the "
            "offsets Dict.__set_name__ reserved", ok, td,
            "key_offset / value_offset")
